@@ -85,9 +85,9 @@ func c20collect(v reflect.Value, path string, optional bool, out map[uintptr]*c2
 
 func c20n(tier string) int {
 	if tier == "thorough" {
-		return 120000
+		return 1000000
 	}
-	return 4000
+	return 20000
 }
 
 var c20directed = []string{
